@@ -72,6 +72,8 @@ def main():
         except Exception as e:  # noqa: BLE001
             rec["intermediate_dtypes"] = None
             out["errors"].append({"id": cid, "stage": "jaxpr", "exception": repr(e)[:300]})
+        # the arrays the stepper carries (operators, coefficients, masks) are built under the session default
+        rec["leaf_dtypes"] = sorted({str(x.dtype) for x in jax.tree_util.tree_leaves(st) if hasattr(x, "dtype")})
         # precision faithfulness of linear steppers: two half steps == one full step, to the session's own rounding
         if order in (None, 0) and registry.takes_physical(type(st)):
             try:
